@@ -317,3 +317,39 @@ def gfortran(text, workdir, tag):
             msg = (m.group(1) or m.group(2) or "").strip()
             break
     return p.returncode == 0, msg
+
+
+# --------------------------------------------------------------------------- files with several routines
+_FILE_CACHE = {}
+
+
+def source_of_file(skels):
+    """one source file with the subroutines sub1, sub2, ... (one per directive-free skeleton)"""
+    return "".join(source_of(sk).replace("subroutine sub(", "subroutine sub%d(" % (k + 1))
+                   .replace("end subroutine sub", "end subroutine sub%d" % (k + 1)) for k, sk in enumerate(skels))
+
+
+def read_file(skels):
+    """(FileContainer, [Routine, ...]) for a tuple of skeletons"""
+    from psyclone.psyir.frontend.fortran import FortranReader
+    from psyclone.psyir.nodes import Routine
+    key = tuple(skels)
+    if key not in _FILE_CACHE:
+        if len(_FILE_CACHE) > 1000:
+            _FILE_CACHE.clear()
+        _FILE_CACHE[key] = FortranReader().psyir_from_source(source_of_file(skels))
+    root = _FILE_CACHE[key].copy()
+    return root, root.walk(Routine)
+
+
+def apply_routine_op(routine):
+    """ACCRoutineTrans on a routine -> verdict like apply_op"""
+    from psyclone.transformations import ACCRoutineTrans
+    from psyclone.psyir.transformations import TransformationError
+    try:
+        ACCRoutineTrans().apply(routine)
+        return "ok", ""
+    except TransformationError as e:
+        return "terr", str(e.value if hasattr(e, "value") else e)
+    except Exception as e:   # noqa
+        return "crash", "%s: %s" % (type(e).__name__, e)
